@@ -1,7 +1,7 @@
 #!/bin/bash
 # tools/matrix3.sh [PROP...] : incoming mutants of round $ROUND (default 3; tag c, round 4: tag d) against their owning quick check (private worktrees)
 cd /verif; mkdir -p /tmp/confirm/matrix
-ROUND=${ROUND:-3}; TAG=$( case "$ROUND" in 4) echo d;; 5) echo e;; 6) echo f;; 7) echo g;; *) echo c;; esac )
+ROUND=${ROUND:-3}; TAG=$( case "$ROUND" in 4) echo d;; 5) echo e;; 6) echo f;; 7) echo g;; 8) echo h;; *) echo c;; esac )
 for P in "$@"; do for k in 1 2 3; do
   patch=seeded/_incoming$ROUND/$P/change_$k.diff
   [ -f seeded/_incoming$ROUND/$P/change_${k}_ported.diff ] && patch=seeded/_incoming$ROUND/$P/change_${k}_ported.diff
